@@ -96,8 +96,14 @@ fn run_pairs(cx: &mut CaseCx, case: &Value) {
         }
         b = e;
       }
-      let d = || json!({"aux_len_1": fam[i].len(), "aux_len_2": fam[j].len(), "first_differing_payload_byte": first, "relation_holds_for_bytes": run, "bytes_to_block_end": avail, "aux1": hexs(&fam[i]), "aux2": hexs(&fam[j])});
-      if later_full_block {
+      // ... or does the relation simply run on PAST the end of that block (a cipher that restarts its blocks at
+      // field boundaries instead of at multiples of the block size)?
+      let beyond = if run == avail { (block_end..n).take_while(|&k| holds(k)).count() } else { 0 };
+      let beyond_nontrivial = (block_end..block_end + beyond).filter(|&k| p1[k] != p2[k] || c1[k] != c2[k]).count();
+      let d = || json!({"aux_len_1": fam[i].len(), "aux_len_2": fam[j].len(), "first_differing_payload_byte": first, "relation_holds_for_bytes": run, "bytes_to_block_end": avail, "relation_continues_past_block_end_for": beyond, "aux1": hexs(&fam[i]), "aux2": hexs(&fam[j])});
+      if beyond >= 8 && beyond_nontrivial >= 4 && !later_full_block {
+        cx.viol("C03/keystream-reuse/past-block-end", format!("c1^c2 == p1^p2 holds from the first differing byte (payload offset {}) to the end of its 166-byte cipher block AND for {} more bytes beyond it: more than the recorded finding (the keystream after the block boundary does not depend on the ciphertext before it)", first, beyond), d());
+      } else if later_full_block {
         cx.viol("C03/keystream-reuse/across-blocks", "c1^c2 == p1^p2 also in a cipher block AFTER the one holding the first difference (keystream independent of earlier ciphertext)", d());
       } else if run == avail {
         cx.count("xor_relation_to_block_end", 1);
@@ -851,7 +857,7 @@ pub fn spec() -> PropSpec {
     checks: vec![
       Check {
         name: "ciphertext-pairs",
-        rule: "per (measurement, epoch, t): associated-data family = every length 1..40 and {100,150,165,166,167,200,331,332,333,400,600} x 2 contents + single-byte variants (first/middle/last offset; thorough: every offset); ALL ordered pairs of distinct members (covers all triples pairwise): first differing payload byte i, is c1^c2 == p1^p2 on [i, block end) and in later blocks; distinct = judged ordered pairs",
+        rule: "per (measurement, epoch, t): associated-data family = every length 1..40 and {100,150,165,166,167,200,331,332,333,400,600} x 2 contents + single-byte variants (first/middle/last offset; thorough: every offset); ALL ordered pairs of distinct members (covers all triples pairwise): first differing payload byte i, is c1^c2 == p1^p2 on [i, block end), does it run on past the block end (>= 8 bytes), does it hold in a later block; distinct = judged ordered pairs",
         gen: |t| {
           let mut v = vec![];
           let cfgs: Vec<(u64, usize, usize)> = if t.thorough() { vec![(2, 1, 1), (3, 4, 0), (2, 5, 2), (3, 8, 1), (2, 0, 0), (2, 6, 1)] } else { vec![(2, 1, 1), (3, 4, 0), (2, 5, 2)] };
